@@ -564,6 +564,32 @@ fn main() {
         };
         std::process::exit(code);
     }
+    if args.len() >= 5 && args[1] == "--actor" {
+        // Actor mode (used by procsim's C30 scenarios): one server lifetime on an existing
+        // project directory, as a process whose gates (cache-ls lock, Veryl.lock, path order,
+        // std expansion) are owned by the coordinator through VERYL_SIM_SOCK.
+        //   lssim --actor <project root> <out.json> <file>...
+        let root = PathBuf::from(&args[2]);
+        let out = PathBuf::from(&args[3]);
+        let files: Vec<String> = args[4..].to_vec();
+        let mut script = vec![];
+        let mut texts = BTreeMap::new();
+        for f in &files {
+            let t = std::fs::read_to_string(root.join(f)).unwrap_or_default();
+            texts.insert(f.clone(), t.clone());
+            script.push(msg(u32::MAX, MsgToServer::DidOpen { url: url_of(&root.join(f)), text: t, version: 1 }));
+        }
+        for f in &files {
+            script.push(msg(u32::MAX, MsgToServer::DidChange { url: url_of(&root.join(f)), text: texts[f].clone(), version: 2 }));
+        }
+        // the user cache comes from the environment (XDG_CACHE_HOME), as for the CLI
+        let cache = veryl_path::cache_path();
+        let o = run_session(script, cache);
+        let last = last_published(&o.published, &root);
+        let v = json!({"panic": o.panic, "diagnostics": last.iter().map(|(k, (ver, d))| (k.clone(), json!({"version": ver, "diagnostics": d}))).collect::<BTreeMap<_, _>>()});
+        std::fs::write(&out, serde_json::to_string_pretty(&v).unwrap()).unwrap();
+        std::process::exit(if o.panic.is_some() { 101 } else { 0 });
+    }
     let tier = args.get(1).cloned().unwrap_or_else(simcore::evidence::tier);
     let seed = verif_seed();
     let n: usize = std::env::var("VERIF_N").ok().and_then(|x| x.parse().ok()).unwrap_or(if tier == "thorough" { 6000 } else { 400 });
